@@ -414,7 +414,7 @@ def circuit_inputs(rs, tier):
     from deeprob.spn.structure.cltree import BinaryCLT
     items = []   # (tag, root)
     errors = []
-    n_hand = 36 if tier == "quick" else 300
+    n_hand = 36 if tier == "quick" else 800
     kind_sets = [("bern",), ("bern", "cat"), ("bern", "cat", "gauss", "unif", "iso"), ("gauss", "unif", "iso"), ("cat", "iso")]
     for i in range(n_hand):
         mode = ("dyadic", "dirichlet", "ties")[i % 3]
